@@ -146,6 +146,36 @@ def c11_jobs(tier):
     return [J("hsms", "ZZ_C11_alias", scn=i) for i in range(10)]
 
 
+INT_TYPES = [4, 5, 6, 7, 10, 11, 12, 13]  # I8 I1 I2 I4 U8 U1 U2 U4 (index into zzTypes)
+
+
+def c05_jobs(tier):
+    jobs = []
+    T = dict(timeout_s=(250 if tier == "quick" else 3300))
+    for typ in INT_TYPES + [1, 3]:
+        for neg in (0, 1):
+            if tier == "quick":
+                combos = [(0, 1), (0, 3), (1, 2), (3, 8)] + ([(2, 3)] if typ in (5, 11, 1) else [])
+            else:
+                combos = [(0, 1), (0, 2), (0, 3), (0, 5), (0, 10), (0, 19), (0, 20), (1, 1), (1, 2), (1, 4), (1, 8), (1, 16), (1, 17),
+                          (2, 3), (2, 6), (2, 11), (2, 22), (3, 8), (3, 9), (3, 16), (3, 32), (3, 64)]
+            for cls, k in combos:
+                jobs.append(J("sml", "ZZ_C05_int", typ=typ, cls=cls, k=k, neg=neg, **T))
+    for typ in INT_TYPES + [1]:
+        jobs.append(J("sml", "ZZ_C05_two", typ=typ, **T))
+    for typ in range(1, 14):
+        for which in range(9):
+            jobs.append(J("sml", "ZZ_C05_wrongtype", typ=typ, which=which))
+    for k in ([0, 1, 2, 3] if tier == "quick" else [0, 1, 2, 3, 4, 5]):
+        jobs.append(J("sml", "ZZ_C05_string", k=k, **T))
+    jobs.append(J("sml", "ZZ_C05_mixed", **T))
+    jobs.append(J("sml", "ZZ_C05_bool"))
+    for typ in (8, 9):
+        for i in range(12):
+            jobs.append(J("sml", "ZZ_C05_float", typ=typ, i=i))
+    return jobs
+
+
 def c12_jobs(tier):
     jobs = []
     for w in (1, 2, 4, 8, 0, 3):
@@ -181,7 +211,16 @@ def c13_jobs(tier):
     return jobs
 
 
+def smoke_jobs(tier):
+    return [J("sml", "ZZ_SML_smoke", which=w) for w in range(4)]
+
+
 PROPS = {
+    "C05": dict(jobs=c05_jobs, must_reach=["end"],
+                level_text="Bounded model checking: message texts with literal holes whose every digit/character is symbolic are run through the real lexer and parser (regexp, strconv.ParseInt/ParseUint interpreted from their SSA); the denoted value is computed by the harness from the hole bytes and compared with the stored bytes; unrepresentable literals must give an error and no message.",
+                level_note="Trusted: go/ssa, engine incl. regexp simulation and string models, z3. Float text->value conversion is trusted strconv (concrete menu only).",
+                bounds={"quick": "integer literals: decimal k<=3 digits, hex 2, octal 3, binary 8; strings k<=3 bytes", "thorough": "decimal up to 20 digits, hex 17, octal 22, binary 64 (overflow side of every width); strings k<=5"},
+                outside=["decimal literals with a leading zero, '_' separators, '+' on unsigned items, '-0' on unsigned items (unspecified)", "control characters inside quoted strings other than CR/LF", "the text->float mapping of strconv.ParseFloat"]),
     "C11": dict(jobs=c11_jobs,
                 level_text="Bounded model checking of the aliasing channels: every slice/map passed in or returned is mutated in place by a symbolic non-zero mask at a chosen position, and all observers of every pre-existing object are compared with their snapshots; the engine's slices share backing arrays exactly as Go's do.",
                 level_note="Trusted: go/ssa, engine (slice aliasing and append growth follow the host runtime), z3. Scenarios are fixed call sequences (constructor, producers, fill, encode, decode), not arbitrary histories.",
@@ -243,4 +282,7 @@ PROPS = {
                 outside=[], assumptions=["len(systemBytes) == 4 for the ...Req constructors (documented precondition)"]),
 }
 
+DEV = {
+    "SMOKE": dict(jobs=smoke_jobs, level_text="dev", level_note="dev", validate_per_job=12),
+}
 NOT_APPLICABLE = {}
